@@ -31,7 +31,7 @@ PROP = {
                     "Tyme/Model/Term.lean", "Tyme/Model/SixtyCycle.lean", "Tyme/Model/Lunar.lean"],
     "gen": [gen_eph],
     "streams": [
-        {"name": "c15.days", "args_thorough": ["all"]},   # every civil date: all five series
+        {"name": "c15.days", "args_thorough": ["all"], "extra_years": True},   # every civil date: all five series
     ],
     "ops": c15_ops,
     "exhaustive": False,
